@@ -166,6 +166,157 @@ theorem cancelStake_never_twice (id : Hash) (s s' s'' : Stake) (c c2 : Ctx) (ps 
   cases he2
   rw [hp2, hsame]
 
+/-! ## htlc (the hash functions are a parameter `H`) -/
+
+/-- T1 (htlc, one receive): for every token, Σ of the entries in that token stays covered by the balance -/
+theorem htlc_backed_step (H : HashFn) (op : HtlcOp) (s : Htlc) (bal : Bal) (c : Ctx)
+    (h : Backed htlcOwed s bal) :
+    Backed htlcOwed (vmStep (op.method H) s bal c).st (vmStep (op.method H) s bal c).bal :=
+  vmStep_backed (htlc_methodBacked H op) c h
+
+/-- T1 (htlc, all histories of Create / Reclaim / Unlock / Deny / AllowProxyUnlock) -/
+theorem htlc_backed (H : HashFn) (ops : List (HtlcOp × Ctx)) (s : Htlc) (bal : Bal)
+    (h : Backed htlcOwed s bal) :
+    Backed htlcOwed (run (HtlcOp.method H) (s, bal) ops).1 (run (HtlcOp.method H) (s, bal) ops).2 :=
+  run_backed (htlc_methodBacked H) ops (s, bal) h
+
+/-- the lock recorded by Create: keyed by the send-block hash; time-locked party = sender; the sent token and amount
+    (non-zero); not yet expired at the receive; a known hash type with a digest of its size -/
+theorem createHtlc_records_lock (a : Addr) (ex : Int) (ty km : Nat) (hl : Bytes) (s s' : Htlc) (c : Ctx) (ps : List Payout)
+    (h : createHtlc a ex ty km hl s c = some (s', ps)) :
+    lookup c.hash s'.entries = some ⟨c.sender, a, c.token, c.amount, ex, ty, km, hl⟩ ∧ ps = [] ∧
+      0 < c.amount ∧ c.now < ex ∧ digestSize ty = some hl.length := by
+  unfold createHtlc at h
+  split at h
+  · cases h
+  · rename_i n hn
+    split at h
+    · cases h
+    · rename_i hlen
+      split at h
+      · cases h
+      · rename_i ha
+        split at h
+        · cases h
+        · rename_i hx
+          simp only [Option.some.injEq, Prod.mk.injEq] at h
+          obtain ⟨hs, hp⟩ := h
+          subst hs
+          refine ⟨lookup_put_self _ _ _, hp.symm, by omega, by omega, ?_⟩
+          rw [hn]; simp at hlen; rw [hlen]
+
+/-- T3 (htlc, Reclaim): pays out only if the caller sent no amount, the entry exists, the caller is its time-locked
+    party (the depositor) and the expiration time has been reached; it pays exactly the recorded amount of the recorded
+    token to that party and deletes the entry. -/
+theorem reclaimHtlc_release_rule (id : Hash) (s s' : Htlc) (c : Ctx) (ps : List Payout)
+    (h : reclaimHtlc id s c = some (s', ps)) :
+    ∃ e, lookup id s.entries = some e ∧ c.amount = 0 ∧ c.sender = e.timeLocked ∧ e.expiration ≤ c.now ∧
+      ps = [⟨e.timeLocked, e.tok, e.amount, false⟩] ∧ lookup id s'.entries = none := by
+  unfold reclaimHtlc at h
+  split at h
+  · cases h
+  · rename_i ha
+    split at h
+    · cases h
+    · rename_i e he
+      split at h
+      · cases h
+      · rename_i ho
+        split at h
+        · cases h
+        · rename_i hx
+          simp only [Option.some.injEq, Prod.mk.injEq] at h
+          obtain ⟨hs, hp⟩ := h
+          refine ⟨e, he, by omega, ?_, by omega, hp.symm, ?_⟩
+          · exact (Decidable.byContradiction fun hn => ho (fun e' => hn e'.symm))
+          · subst hs; exact lookup_erase_self _ _
+
+/-- T3 (htlc, Unlock): pays out only if the caller sent no amount, the entry exists, the caller is the hash-locked
+    party or that party has not denied proxy unlocks, the entry has not expired (`now < expiration`), the preimage is
+    no longer than the entry allows and hashes (with the entry's hash type) to the recorded lock; it pays exactly the
+    recorded amount of the recorded token to the hash-locked party — whoever called — and deletes the entry. -/
+theorem unlockHtlc_release_rule (H : HashFn) (id : Hash) (pre : Bytes) (s s' : Htlc) (c : Ctx) (ps : List Payout)
+    (h : unlockHtlc H id pre s c = some (s', ps)) :
+    ∃ e, lookup id s.entries = some e ∧ c.amount = 0 ∧
+      (c.sender = e.hashLocked ∨ s.proxyAllowed e.hashLocked = true) ∧ c.now < e.expiration ∧
+      pre.length ≤ e.keyMax ∧ H e.hashType pre = e.hashLock ∧
+      ps = [⟨e.hashLocked, e.tok, e.amount, false⟩] ∧ lookup id s'.entries = none := by
+  unfold unlockHtlc at h
+  split at h
+  · cases h
+  · rename_i ha
+    split at h
+    · cases h
+    · rename_i e he
+      split at h
+      · cases h
+      · rename_i hperm
+        split at h
+        · cases h
+        · rename_i hx
+          split at h
+          · cases h
+          · rename_i hk
+            split at h
+            · cases h
+            · rename_i hh
+              simp only [Option.some.injEq, Prod.mk.injEq] at h
+              obtain ⟨hs, hp⟩ := h
+              refine ⟨e, he, by omega, ?_, by omega, by omega, ?_, hp.symm, ?_⟩
+              · by_cases hsnd : c.sender = e.hashLocked
+                · exact Or.inl hsnd
+                · refine Or.inr ?_
+                  cases hpa : s.proxyAllowed e.hashLocked with
+                  | true => rfl
+                  | false => simp [hpa, hsnd] at hperm
+              · exact Decidable.byContradiction fun hn => hh hn
+              · subst hs; exact lookup_erase_self _ _
+
+/-- T4 (htlc): once an entry has been reclaimed or unlocked, no later Reclaim or Unlock of that id — by anybody, with
+    any preimage, at any time — pays anything. -/
+theorem htlc_never_twice (H : HashFn) (id : Hash) (pre : Bytes) (s s' : Htlc) (c : Ctx) (ps : List Payout)
+    (h : reclaimHtlc id s c = some (s', ps) ∨ unlockHtlc H id pre s c = some (s', ps))
+    (c2 : Ctx) (pre2 : Bytes) :
+    reclaimHtlc id s' c2 = none ∧ unlockHtlc H id pre2 s' c2 = none := by
+  have hgone : lookup id s'.entries = none := by
+    rcases h with h | h
+    · obtain ⟨_, _, _, _, _, _, hg⟩ := reclaimHtlc_release_rule id s s' c ps h; exact hg
+    · obtain ⟨_, _, _, _, _, _, _, _, hg⟩ := unlockHtlc_release_rule H id pre s s' c ps h; exact hg
+  constructor
+  · unfold reclaimHtlc; split
+    · rfl
+    · rw [hgone]
+  · unfold unlockHtlc; split
+    · rfl
+    · rw [hgone]
+
+/-- the expiration time separates the two releases: at any instant at most one of Unlock and Reclaim can pay -/
+theorem htlc_unlock_reclaim_exclusive (H : HashFn) (id : Hash) (pre : Bytes) (s s1 s2 : Htlc) (c1 c2 : Ctx)
+    (p1 p2 : List Payout) (hnow : c1.now = c2.now)
+    (h1 : unlockHtlc H id pre s c1 = some (s1, p1)) (h2 : reclaimHtlc id s c2 = some (s2, p2)) : False := by
+  obtain ⟨e1, he1, _, _, hlt, _⟩ := unlockHtlc_release_rule H id pre s s1 c1 p1 h1
+  obtain ⟨e2, he2, _, _, hge, _⟩ := reclaimHtlc_release_rule id s s2 c2 p2 h2
+  rw [he1] at he2; cases he2
+  omega
+
+/-- after DenyProxyUnlock by `a`, an Unlock of an entry hash-locked to `a` called by anybody else fails -/
+theorem denied_proxy_blocks_third_party (H : HashFn) (s s' : Htlc) (c : Ctx) (ps : List Payout)
+    (h : setProxyUnlock false s c = some (s', ps)) (id : Hash) (pre : Bytes) (e : HtlcE) (c2 : Ctx)
+    (he : lookup id s'.entries = some e) (hl : e.hashLocked = c.sender) (hother : c2.sender ≠ c.sender) :
+    unlockHtlc H id pre s' c2 = none := by
+  unfold setProxyUnlock at h
+  split at h
+  · cases h
+  · simp only [Option.some.injEq, Prod.mk.injEq] at h
+    obtain ⟨hs, _⟩ := h
+    subst hs
+    unfold unlockHtlc
+    split
+    · rfl
+    · simp only at he
+      rw [he]
+      simp [Htlc.proxyAllowed, hl, lookup_put_self, hother]
+
 /-! ## the hypotheses are satisfiable -/
 
 /-- a backed plasma state in which U(=16) owns a matured fusion: the cancel pays, a second cancel fails -/
@@ -185,5 +336,18 @@ example :
     by_cases h : 17 = b
     · subst h; decide
     · simp [Plasma.fusedOf, Plasma.entriesFor, lookup, total, h]
+
+/-- an htlc of 5 ZNN from 16 to 17, expiring at 1000, lock = H(preimage [1,2]); 18 unlocks it by proxy before expiry and the
+    amount goes to 17; at time 1000 only the reclaim by 16 pays -/
+example :
+    let H : HashFn := fun _ p => p ++ [0]
+    let s : Htlc := { entries := [(5, ⟨16, 17, znnTok, 5, 1000, 0, 32, [1, 2, 0]⟩)] }
+    (unlockHtlc H 5 [1, 2] s ⟨990, 9, 18, 0, zeroTok, 77⟩).map (·.2) = some [⟨17, znnTok, 5, false⟩] ∧
+    unlockHtlc H 5 [1, 2] s ⟨1000, 9, 17, 0, zeroTok, 77⟩ = none ∧
+    unlockHtlc H 5 [1, 3] s ⟨990, 9, 17, 0, zeroTok, 77⟩ = none ∧
+    reclaimHtlc 5 s ⟨990, 9, 16, 0, zeroTok, 77⟩ = none ∧
+    (reclaimHtlc 5 s ⟨1000, 9, 16, 0, zeroTok, 77⟩).map (·.2) = some [⟨16, znnTok, 5, false⟩] ∧
+    reclaimHtlc 5 s ⟨1000, 9, 17, 0, zeroTok, 77⟩ = none := by
+  decide
 
 end ZV.C10
